@@ -392,6 +392,12 @@ class Run:
         A coqchk error is a broken obligation; a run that was killed / timed out without an error is only noted."""
         if self.pid == "C17" or not self.obligations or any(not o["ok"] for o in self.obligations):
             return          # C17 runs its own coqchk step; nothing to re-check when the build itself is broken
+        if self.pid == "C20":
+            # measured: the closure of C20 contains Reals, Interval, Flocq and Coquelicot; a full coqchk run did not finish in
+            # four hours, and admitting those libraries (-admit / -norec) runs into a coqchk anomaly about universes
+            self.notes.append("coqchk not run for C20 (closure with Interval/Flocq/Coquelicot does not finish within hours); "
+                              "checked by coqc only")
+            return
         import glob
         mods = []
         for d in ("Props", "Corr"):
